@@ -59,6 +59,21 @@ def generate(hint, confkw) -> Generated:
     return g
 
 
+class _Lazy(dict):
+    """Mapping defined for every key (created on first use)."""
+
+    def __init__(self, factory):
+        super().__init__()
+        self.factory = factory
+
+    def __contains__(self, k):
+        return True
+
+    def __missing__(self, k):
+        v = self[k] = self.factory(k)
+        return v
+
+
 class Encoding:
     """z3 view of one Generated under one bound (None = unbounded lengths)."""
 
@@ -113,7 +128,9 @@ class Encoding:
             def binder(fn, ctx):
                 lead = self.leading
                 ctx.env[fn.args.vararg.arg] = (VArgs(z3.IntVal(1 + len(lead)), list(lead) + [x]), T)
-                ctx.env[fn.args.kwarg.arg] = (VKwargs({'x': z3.BoolVal(False)}, {'x': U.obj('kw_x')}), T)
+                # no keyword argument is passed, whatever the parameter names are
+                ctx.env[fn.args.kwarg.arg] = (VKwargs(_Lazy(lambda k: z3.BoolVal(False)),
+                                                      _Lazy(lambda k: U.obj(f'kw_{k}'))), T)
             res = run_function(g.wrapper, U, binder, r)
             self.results['wrapper'] = res
             pv, rv = [], []
